@@ -310,9 +310,18 @@ def _parse(lines, idx):
 # --------------------------------------------------------------------------- findings
 def load_findings():
     p = os.path.join(VERIF, "known_findings.json")
-    if not os.path.exists(p):
-        return {"known": [], "fixed": []}
-    return json.load(open(p))
+    res = {"known": [], "fixed": []}
+    if os.path.exists(p):
+        d = json.load(open(p))
+        res["known"] += d.get("known", [])
+        res["fixed"] += d.get("fixed", [])
+    # per-property fragments (merged into known_findings.json by the coordinator)
+    import glob
+    for q in sorted(glob.glob(os.path.join(VERIF, "findings.d", "*.json"))):
+        d = json.load(open(q))
+        res["known"] += d.get("known", [])
+        res["fixed"] += d.get("fixed", [])
+    return res
 
 
 def match_known(prop, signature, findings=None):
@@ -383,10 +392,13 @@ class Check:
             self.known.append(line)
             log(line + ((" [" + detail + "]") if detail else ""))
 
-    def handle_rejections(self, rejections, signature_fn, tag="t"):
+    def handle_rejections(self, rejections, signature_fn, tag="t", cap=6):
         """Classify trace rejections against known_findings.json."""
         findings = load_findings()
         for rj in rejections:
+            if len(self.violations) >= cap:
+                log("  (further rejections suppressed)")
+                break
             sig = signature_fn(rj)
             k = match_known(self.prop, sig, findings)
             if k:
